@@ -99,6 +99,16 @@ func garbageTx(b *B, h uint32, k chain.SignerKey) {
 		`{"version":1,"transactions":[{"input":{"address":"` + k.String() + `","amount":1,"type":"pXXX"},"conversion":"pFCT"}]}`,
 		`{"version":1,"transactions":[{"input":{"address":"` + k.String() + `","amount":1,"type":"pFCT"},"transfers":[{"address":"` + other.String() + `","amount":1}],"conversion":"pUSD"}]}`,
 		`{"version":1,"transactions":[{"input":{"address":"` + k.String() + `","amount":1,"type":"pFCT"},"transfers":[{"address":"` + other.String() + `","amount":1}]}],"extra":1}`,
+		// ticker texts a decoder could trip over: a lone quote, nothing, a lone letter, a backslash, escapes, no "type" at all
+		`{"version":1,"transactions":[{"input":{"address":"` + k.String() + `","amount":1,"type":"\""},"transfers":[{"address":"` + other.String() + `","amount":1}]}]}`,
+		`{"version":1,"transactions":[{"input":{"address":"` + k.String() + `","amount":1,"type":""},"transfers":[{"address":"` + other.String() + `","amount":1}]}]}`,
+		`{"version":1,"transactions":[{"input":{"address":"` + k.String() + `","amount":1,"type":"p"},"transfers":[{"address":"` + other.String() + `","amount":1}]}]}`,
+		`{"version":1,"transactions":[{"input":{"address":"` + k.String() + `","amount":1,"type":"\\"},"transfers":[{"address":"` + other.String() + `","amount":1}]}]}`,
+		`{"version":1,"transactions":[{"input":{"address":"` + k.String() + `","amount":1,"type":"pFCT"},"conversion":"\""}]}`,
+		`{"version":1,"transactions":[{"input":{"address":"` + k.String() + `","amount":1,"type":"pFCT"},"conversion":"p\u0055SD"}]}`,
+		`{"version":1,"transactions":[{"input":{"address":"` + k.String() + `","amount":1,"type":"\u0070FCT"},"conversion":"pUSD"}]}`,
+		`{"version":1,"transactions":[{"input":{"address":"` + k.String() + `","amount":1},"transfers":[{"address":"` + other.String() + `","amount":1}]}]}`,
+		`{"version":1,"transactions":[{"input":{"address":"` + k.String() + `","amount":1,"type":null},"transfers":[{"address":"` + other.String() + `","amount":1}]}]}`,
 	} {
 		idx := b.TxJSON(h, k, c)
 		b.Expect(h, idx, NoRow, fmt.Sprintf("invalid batch content %d", i))
